@@ -510,6 +510,45 @@ func c10UsedAssertions(c *run.Ctx) {
 					}
 				}
 			}
+			// assertions that are out of their time: expired (must be rejected), not yet valid / issued in the future (may be
+			// rejected). Whatever is rejected is answered with one of the two classes the statement names.
+			for _, tc := range []struct {
+				name   string
+				claims map[string]interface{}
+				must   bool
+			}{
+				{"expired-1h", map[string]interface{}{"exp": time.Now().Add(-time.Hour).Unix()}, true},
+				{"expired-2s", map[string]interface{}{"exp": time.Now().Add(-2 * time.Second).Unix()}, true},
+				{"nbf-in-1h", map[string]interface{}{"exp": time.Now().Add(2 * time.Hour).Unix(), "nbf": time.Now().Add(time.Hour).Unix()}, false},
+				{"iat-in-1h", map[string]interface{}{"exp": time.Now().Add(2 * time.Hour).Unix(), "iat": time.Now().Add(time.Hour).Unix()}, false},
+			} {
+				for _, ep := range eps {
+					cl := map[string]interface{}{"iss": "pk", "sub": "pk", "aud": world.TokenURL, "iat": time.Now().Unix(), "jti": nextJTI("c10time")}
+					for k, v := range tc.claims {
+						cl[k] = v
+					}
+					as := world.SignJWT(keys.ClientRSA[0], "RS256", map[string]interface{}{"kid": "k0"}, cl)
+					before := w.Store.Digest()
+					out := do(ep, as)
+					c.Case(fmt.Sprintf("assertion-out-of-its-time %s endpoint=%s processed=%v err=%s", tc.name, ep, out.Err == nil, out.ErrName))
+					h := append(append([]string(nil), hist...), fmt.Sprintf("assertion %s at %s => %s", tc.name, ep, world.ErrDetail(out.Err)))
+					switch {
+					case out.Err == nil && tc.must:
+						c.Violate(run.Violation{Kind: "unauthenticated-request-processed", Key: "unauthenticated-request-processed client-assertion-" + tc.name + " endpoint=" + ep, Detail: "an expired client assertion authenticated a request", History: h})
+					case out.Err == nil:
+						c.Unspecified("client-assertion-" + tc.name + "-accepted")
+					default:
+						c.Count("c10_rejected", 1)
+						if out.ErrName != "invalid_client" && out.ErrName != "invalid_request" && !(ep == "introspect" && out.ErrName == "request_unauthorized") {
+							c.Violate(run.Violation{Kind: "rejection-class", Key: fmt.Sprintf("rejection-class client-assertion-%s endpoint=%s got=%s", tc.name, ep, out.ErrName),
+								Detail: "a request whose client assertion is out of its time was answered " + out.ErrName + ": " + world.ErrDetail(out.Err), History: h})
+						}
+						if d := world.DigestDiff(before, w.Store.Digest()); len(d) > 0 {
+							c.Violate(run.Violation{Kind: "rejected-request-changed-state", Key: "rejected-request-changed-state endpoint=" + ep + " (client-assertion-" + tc.name + ")", Detail: fmt.Sprint(d), History: h})
+						}
+					}
+				}
+			}
 			for ui, as := range used {
 				for _, ep := range eps {
 					before := w.Store.Digest()
